@@ -1,40 +1,47 @@
 (* C19 - Merging stubs loses nothing and prefers stub types.
    Property theorems only: each closed by [exact] of a lemma from Proofs/, followed by Print Assumptions.
-   merge_obj via s o models _merge_module_stubs(o, s) / _merge_class_stubs(o, s) of merger.py (stubs first);
-   via = o is reached through an alias (false for what merge_stubs is given);
+   merge_obj s o models _merge_module_stubs(o, s) / _merge_class_stubs(o, s) of merger.py (stubs first);
    Done r = returned normally with o mutated into r, Raised e p = raised e leaving o as p.
-   Al = alias whose target is not loaded, AlTo = alias carrying the value of its loaded final target. *)
+   Al = alias whose target is not loaded, AlTo = alias carrying the value of its loaded final target.
+   The model is that of the code after the repairs of findings C19-F1, F2, F3: no theorem carries a gap hypothesis. *)
 From Coq Require Import List ZArith String Bool Arith.
 From Verif Require Import Lib.Sexp Model.C19_merge Proofs.C19_merge.
 Import ListNotations.
 Open Scope string_scope. Open Scope list_scope. Open Scope nat_scope.
 
 (* Nothing is lost, at any depth, for any pair of trees: every path of the runtime tree leads, in the merged
-   tree, to a member of the same kind (or to an alias when it was one). *)
+   tree, to a member of the same kind (or to an alias with the same target when it was one). *)
 Theorem C19_keeps_runtime_members :
-  forall via s o r p x, merge_obj via s o = Done r -> at_path p o = Some x ->
+  forall s o r p x, merge_obj s o = Done r -> at_path p o = Some x ->
   exists y, at_path p r = Some y /\ shape_of y = shape_of x /\ alias_id y = alias_id x.
 Proof. exact keeps_runtime_members. Qed.
 Print Assumptions C19_keeps_runtime_members.
 
-(* ... and also in the partially merged object a raising merge leaves behind. *)
+(* ... and also in the partially merged object a raising merge (ill-formed stubs) would leave behind. *)
 Theorem C19_keeps_runtime_members_even_when_raising :
-  forall via s o e part p x, merge_obj via s o = Raised e part -> at_path p o = Some x ->
+  forall s o e part p x, merge_obj s o = Raised e part -> at_path p o = Some x ->
   exists y, at_path p part = Some y /\ shape_of y = shape_of x /\ alias_id y = alias_id x.
 Proof. exact keeps_runtime_members_even_when_raising. Qed.
 Print Assumptions C19_keeps_runtime_members_even_when_raising.
 
-(* Aliases of the runtime tree (target not loaded) are never replaced, retargeted or re-flagged, at any depth. *)
+(* Aliases of the runtime tree whose target is not loaded are never replaced, retargeted or re-flagged, at any depth. *)
 Theorem C19_never_touches_aliases :
-  forall via s o r p tg rt, out_tree (merge_obj via s o) = r -> at_path p o = Some (Al tg rt) -> at_path p r = Some (Al tg rt).
+  forall s o r p tg rt, out_tree (merge_obj s o) = r -> at_path p o = Some (Al tg rt) -> at_path p r = Some (Al tg rt).
 Proof. exact never_touches_aliases. Qed.
 Print Assumptions C19_never_touches_aliases.
+
+(* Merging never raises: stubs as the visitor builds them (every module / class has its buffer dict) merge into any
+   module or class - whatever kinds, aliases and pending overload groups are on either side. *)
+Theorem C19_never_raises :
+  forall s, dict_ok s = true -> root_container s = true -> forall od oms, exists r, merge_obj s (Obj od oms) = Done r.
+Proof. exact never_raises. Qed.
+Print Assumptions C19_never_raises.
 
 (* One merged scope (module or class), names unique as in a dict: the scope's own docstring only when missing,
    imports updated, runtime members keep their position, stub-only members appended in stub order. *)
 Theorem C19_scope_level :
   forall sd sms od oms r,
-  merge_obj false (Obj sd sms) (Obj od oms) = Done r -> NoDup (names sms) -> NoDup (names (buf_of sd)) ->
+  merge_obj (Obj sd sms) (Obj od oms) = Done r -> NoDup (names sms) -> NoDup (names (buf_of sd)) ->
   exists rd rms, r = Obj rd rms /\ nkind rd = nkind od /\ ndoc rd = merge_doc (ndoc od) (ndoc sd) /\
     nimp rd = update_imports (nimp od) (nimp sd) /\ nrt rd = nrt od /\ nov rd = nov od /\
     names rms = names oms ++ filter (fresh (names oms)) (names sms).
@@ -42,14 +49,14 @@ Proof. exact scope_level. Qed.
 Print Assumptions C19_scope_level.
 
 (* The whole field table as one equation: what is under each name afterwards.  [buffered] = the effect of the
-   stubs' pending overload groups, [table] = stub-only / runtime-only / both (member_result: per kind). *)
+   stubs' pending overload groups (functions only), [table] = stub-only / runtime-only / both (member_result: per kind). *)
 Theorem C19_field_table :
   forall sd sms od oms r,
-  merge_obj false (Obj sd sms) (Obj od oms) = Done r -> NoDup (names sms) -> NoDup (names (buf_of sd)) ->
+  merge_obj (Obj sd sms) (Obj od oms) = Done r -> NoDup (names sms) -> NoDup (names (buf_of sd)) ->
   exists rms,
     r = Obj (with_imp (with_doc od (merge_doc (ndoc od) (ndoc sd))) (update_imports (nimp od) (nimp sd))) rms /\
     names rms = names oms ++ filter (fresh (names oms)) (names sms) /\
-    forall n, lookup n rms = table merge_obj false sms n (option_map (buffered (buf_of sd) n) (lookup n oms)).
+    forall n, lookup n rms = table merge_obj sms n (option_map (buffered (buf_of sd) n) (lookup n oms)).
 Proof. exact field_table. Qed.
 Print Assumptions C19_field_table.
 
@@ -57,8 +64,8 @@ Print Assumptions C19_field_table.
    parameter of the same name (names and order stay the runtime ones); docstring only when missing; overloads from
    the stub function if it has any, else from the stubs' pending group of that name, else the runtime ones. *)
 Theorem C19_function_row :
-  forall via sd sms od oms r n omd omms smd smms,
-  merge_obj via (Obj sd sms) (Obj od oms) = Done r -> NoDup (names sms) -> NoDup (names (buf_of sd)) ->
+  forall sd sms od oms r n omd omms smd smms,
+  merge_obj (Obj sd sms) (Obj od oms) = Done r -> NoDup (names sms) -> NoDup (names (buf_of sd)) ->
   lookup n oms = Some (Obj omd omms) -> lookup n sms = Some (Obj smd smms) ->
   nkind omd = KFun -> nkind smd = KFun -> NoDup (names (nparams smd)) ->
   exists rd, lookup n (members r) = Some (Obj rd omms) /\
@@ -76,12 +83,12 @@ Theorem C19_function_row :
 Proof. exact function_row. Qed.
 Print Assumptions C19_function_row.
 
-(* Attribute on both sides: annotation from the stubs, docstring only when missing (outside known gap F2). *)
+(* Attribute on both sides: annotation from the stubs, docstring only when missing, nothing else. *)
 Theorem C19_attribute_row :
-  forall via sd sms od oms r n omd omms smd smms,
-  merge_obj via (Obj sd sms) (Obj od oms) = Done r -> NoDup (names sms) -> NoDup (names (buf_of sd)) ->
+  forall sd sms od oms r n omd omms smd smms,
+  merge_obj (Obj sd sms) (Obj od oms) = Done r -> NoDup (names sms) -> NoDup (names (buf_of sd)) ->
   lookup n oms = Some (Obj omd omms) -> lookup n sms = Some (Obj smd smms) ->
-  nkind omd = KAttr -> nkind smd = KAttr -> known_gap_F2 (Obj sd sms) (Obj od oms) = false ->
+  nkind omd = KAttr -> nkind smd = KAttr ->
   exists rd, lookup n (members r) = Some (Obj rd omms) /\
     nkind rd = KAttr /\ nrt rd = nrt omd /\ nov rd = nov omd /\
     nann rd = nann smd /\ ndoc rd = merge_doc (ndoc omd) (ndoc smd).
@@ -92,78 +99,81 @@ Theorem C19_docstring_rule : forall o s, merge_doc o s = match o with Some d => 
 Proof. exact merge_doc_rule. Qed.
 Print Assumptions C19_docstring_rule.
 
-(* Class / module on both sides, no known gap: the member is the completed merge of the two, again gap free
+(* Class / module on both sides: the member is the completed merge of the two
    (so every theorem here applies one level down: the table holds at every depth). *)
-Theorem C19_container_row_modulo_known :
+Theorem C19_container_row :
   forall sd sms od oms r n omd omms smd smms,
-  merge_obj false (Obj sd sms) (Obj od oms) = Done r -> NoDup (names sms) -> NoDup (names (buf_of sd)) ->
-  known_gap_F1 (Obj sd sms) (Obj od oms) = false -> known_gap_F2 (Obj sd sms) (Obj od oms) = false ->
+  merge_obj (Obj sd sms) (Obj od oms) = Done r -> NoDup (names sms) -> NoDup (names (buf_of sd)) ->
   lookup n oms = Some (Obj omd omms) -> lookup n sms = Some (Obj smd smms) ->
   nkind omd = nkind smd -> is_container (nkind omd) = true -> dict_ok (Obj smd smms) = true ->
-  exists r', merge_obj false (Obj smd smms) (Obj omd omms) = Done r' /\ lookup n (members r) = Some r' /\
-             known_gap_F1 (Obj smd smms) (Obj omd omms) = false /\ known_gap_F2 (Obj smd smms) (Obj omd omms) = false.
-Proof. exact container_row_modulo_known. Qed.
-Print Assumptions C19_container_row_modulo_known.
+  exists r', merge_obj (Obj smd smms) (Obj omd omms) = Done r' /\ lookup n (members r) = Some r'.
+Proof. exact container_row_done. Qed.
+Print Assumptions C19_container_row.
 
 (* Stub-only members are added, flagged runtime=False, otherwise as the stubs have them. *)
 Theorem C19_stub_only_marked_not_runtime :
   forall sd sms od oms r n sm,
-  merge_obj false (Obj sd sms) (Obj od oms) = Done r -> NoDup (names sms) -> NoDup (names (buf_of sd)) ->
+  merge_obj (Obj sd sms) (Obj od oms) = Done r -> NoDup (names sms) -> NoDup (names (buf_of sd)) ->
   lookup n oms = None -> lookup n sms = Some sm ->
   lookup n (members r) = Some (set_rt false sm) /\ runtime_of (set_rt false sm) = false /\
   shape_of (set_rt false sm) = shape_of sm /\ members (set_rt false sm) = members sm.
 Proof. exact stub_only_marked_not_runtime. Qed.
 Print Assumptions C19_stub_only_marked_not_runtime.
 
-(* Kind mismatch, stub alias, or no stub member at all: a runtime object that is not a function is untouched -
-   outside known gap F2 (a pending overload group of the stubs carrying that name). *)
-Theorem C19_untouched_modulo_known :
-  forall via sd sms od oms r n omd omms,
-  merge_obj via (Obj sd sms) (Obj od oms) = Done r -> NoDup (names sms) -> NoDup (names (buf_of sd)) ->
-  known_gap_F2 (Obj sd sms) (Obj od oms) = false ->
+(* Kind mismatch, stub alias, or no stub member at all: a runtime object that is not a function is untouched
+   (whatever pending overload groups the stubs carry). *)
+Theorem C19_untouched :
+  forall sd sms od oms r n omd omms,
+  merge_obj (Obj sd sms) (Obj od oms) = Done r -> NoDup (names sms) -> NoDup (names (buf_of sd)) ->
   lookup n oms = Some (Obj omd omms) -> nkind omd <> KFun -> stub_side_irrelevant (lookup n sms) (Obj omd omms) ->
   lookup n (members r) = Some (Obj omd omms).
-Proof. exact untouched_modulo_known. Qed.
-Print Assumptions C19_untouched_modulo_known.
+Proof. exact untouched. Qed.
+Print Assumptions C19_untouched.
 
-(* ... and the full statement is false of the code: finding C19-F2. *)
-Theorem C19_untouched_refuted :
-  exists s o r n omd omms, merge_obj false s o = Done r /\ NoDup (names (members s)) /\ NoDup (names (root_buf s)) /\
-    lookup n (members o) = Some (Obj omd omms) /\ nkind omd <> KFun /\
-    stub_side_irrelevant (lookup n (members s)) (Obj omd omms) /\
-    known_gap_F2 s o = true /\ lookup n (members r) <> Some (Obj omd omms).
-Proof. exact untouched_refuted. Qed.
-Print Assumptions C19_untouched_refuted.
-
-(* Kind mismatch with an object on both sides, in general: only the pending-overloads effect, never an error. *)
+(* Kind mismatch with an object on both sides, in general (a runtime function may still take the pending overloads). *)
 Theorem C19_mismatch_row :
-  forall via sd sms od oms r, merge_obj via (Obj sd sms) (Obj od oms) = Done r -> NoDup (names sms) -> NoDup (names (buf_of sd)) ->
+  forall sd sms od oms r, merge_obj (Obj sd sms) (Obj od oms) = Done r -> NoDup (names sms) -> NoDup (names (buf_of sd)) ->
   forall n omd omms smd smms,
   lookup n oms = Some (Obj omd omms) -> lookup n sms = Some (Obj smd smms) -> nkind omd <> nkind smd ->
   lookup n (members r) = Some (buffered (buf_of sd) n (Obj omd omms)).
 Proof. exact mismatch_row. Qed.
 Print Assumptions C19_mismatch_row.
 
-(* Merging never raises - outside known gap F1; and whenever it raises it is AliasResolutionError inside F1. *)
-Theorem C19_never_raises_modulo_known :
-  forall s od oms, dict_ok s = true -> root_container s = true -> known_gap_F1 s (Obj od oms) = false ->
-  exists r, merge_obj false s (Obj od oms) = Done r.
-Proof. exact never_raises_modulo_known. Qed.
-Print Assumptions C19_never_raises_modulo_known.
+(* An alias on either side: a stub alias never changes the runtime member beyond the pending-overloads rule;
+   a runtime alias whose target is not loaded stays exactly as it is. *)
+Theorem C19_stub_alias_row :
+  forall sd sms od oms r, merge_obj (Obj sd sms) (Obj od oms) = Done r -> NoDup (names sms) -> NoDup (names (buf_of sd)) ->
+  forall n om tg rt, lookup n oms = Some om -> lookup n sms = Some (Al tg rt) ->
+  lookup n (members r) = Some (buffered (buf_of sd) n om).
+Proof. exact stub_alias_row. Qed.
+Print Assumptions C19_stub_alias_row.
 
-Theorem C19_raises_only_alias_error :
-  forall s od oms e p, dict_ok s = true -> root_container s = true -> merge_obj false s (Obj od oms) = Raised e p ->
-  e = EAlias /\ known_gap_F1 s (Obj od oms) = true.
-Proof. exact raises_only_alias_error. Qed.
-Print Assumptions C19_raises_only_alias_error.
+Theorem C19_runtime_alias_row :
+  forall sd sms od oms r, merge_obj (Obj sd sms) (Obj od oms) = Done r -> NoDup (names sms) -> NoDup (names (buf_of sd)) ->
+  forall n tg rt sm, lookup n oms = Some (Al tg rt) -> lookup n sms = Some sm ->
+  lookup n (members r) = Some (Al tg rt).
+Proof. exact runtime_alias_row. Qed.
+Print Assumptions C19_runtime_alias_row.
 
-(* the full statement is false of the code: finding C19-F1 *)
-Theorem C19_never_raises_refuted :
-  exists s o, dict_ok s = true /\ root_container s = true /\ NoDup (names (members s)) /\ NoDup (names (root_buf s)) /\
-    (exists p, merge_obj false s o = Raised EAlias p) /\
-    merge_stubs (mkF true s) (mkF false o) = Err EAlias /\ known_gap_F1 s o = true.
-Proof. exact never_raises_refuted. Qed.
-Print Assumptions C19_never_raises_refuted.
+(* The runtime member is an alias to a loaded object: the stub is merged into the target, through the alias -
+   the very same merge as for a direct member (stub-only members of the class included). *)
+Theorem C19_alias_target_function_row :
+  forall sd sms od oms r, merge_obj (Obj sd sms) (Obj od oms) = Done r -> NoDup (names sms) -> NoDup (names (buf_of sd)) ->
+  forall n tg rt omd omms smd smms,
+  lookup n oms = Some (AlTo tg rt (Obj omd omms)) -> lookup n sms = Some (Obj smd smms) ->
+  nkind omd = KFun -> nkind smd = KFun -> hit1 (buf_of sd) n = None ->
+  lookup n (members r) = Some (AlTo tg rt (Obj (merge_fun omd smd) omms)).
+Proof. exact alias_target_function_row. Qed.
+Print Assumptions C19_alias_target_function_row.
+
+Theorem C19_alias_target_container_row :
+  forall sd sms od oms r, merge_obj (Obj sd sms) (Obj od oms) = Done r -> NoDup (names sms) -> NoDup (names (buf_of sd)) ->
+  forall n tg rt omd omms smd smms,
+  lookup n oms = Some (AlTo tg rt (Obj omd omms)) -> lookup n sms = Some (Obj smd smms) ->
+  nkind omd = nkind smd -> is_container (nkind omd) = true ->
+  lookup n (members r) = Some (AlTo tg rt (out_tree (merge_obj (Obj smd smms) (Obj omd omms)))).
+Proof. exact alias_target_container_row. Qed.
+Print Assumptions C19_alias_target_container_row.
 
 (* merge_stubs(mod1, mod2) decides by the .pyi suffix only: same result in both argument orders;
    two regular modules are rejected with ValueError. *)
@@ -177,65 +187,18 @@ Theorem C19_two_regular_modules_rejected :
 Proof. exact merge_stubs_two_regular. Qed.
 Print Assumptions C19_two_regular_modules_rejected.
 
-(* set_member's implicit merge (m.py / m.pyi met in either order): same module either way - outside F1. *)
-Theorem C19_set_member_order_modulo_known :
-  forall s od oms, dict_ok s = true -> root_container s = true -> known_gap_F1 s (Obj od oms) = false ->
+(* set_member's implicit merge (m.py / m.pyi met in either order): the same merged runtime module either way. *)
+Theorem C19_set_member_order :
+  forall s od oms, dict_ok s = true -> root_container s = true ->
   set_member_module (mkF true s) (mkF false (Obj od oms)) = set_member_module (mkF false (Obj od oms)) (mkF true s) /\
-  exists r, set_member_module (mkF true s) (mkF false (Obj od oms)) = Ok (mkF false r) /\ merge_obj false s (Obj od oms) = Done r.
-Proof. exact set_member_order_modulo_known. Qed.
-Print Assumptions C19_set_member_order_modulo_known.
-
-Theorem C19_order_independent_refuted :
-  exists s o, dict_ok s = true /\ root_container s = true /\ known_gap_F1 s o = true /\
-    set_member_module (mkF true s) (mkF false o) <> set_member_module (mkF false o) (mkF true s).
-Proof. exact order_independent_refuted. Qed.
-Print Assumptions C19_order_independent_refuted.
-
-(* The runtime member is an alias to a loaded object: the stub is merged into the target, through the alias
-   (function: same rule as C19_function_row on the target; class / module: the merge of the two with via = true). *)
-Theorem C19_alias_target_function_row :
-  forall via sd sms od oms r, merge_obj via (Obj sd sms) (Obj od oms) = Done r -> NoDup (names sms) -> NoDup (names (buf_of sd)) ->
-  forall n tg rt omd omms smd smms,
-  lookup n oms = Some (AlTo tg rt (Obj omd omms)) -> lookup n sms = Some (Obj smd smms) ->
-  nkind omd = KFun -> nkind smd = KFun -> hit1 (buf_of sd) n = None ->
-  lookup n (members r) = Some (AlTo tg rt (Obj (merge_fun omd smd) omms)).
-Proof. exact alias_target_function_row. Qed.
-Print Assumptions C19_alias_target_function_row.
-
-Theorem C19_alias_target_container_row :
-  forall via sd sms od oms r, merge_obj via (Obj sd sms) (Obj od oms) = Done r -> NoDup (names sms) -> NoDup (names (buf_of sd)) ->
-  forall n tg rt omd omms smd smms,
-  lookup n oms = Some (AlTo tg rt (Obj omd omms)) -> lookup n sms = Some (Obj smd smms) ->
-  nkind omd = nkind smd -> is_container (nkind omd) = true -> hit1 (buf_of sd) n = None ->
-  lookup n (members r) = Some (AlTo tg rt (out_tree (merge_obj true (Obj smd smms) (Obj omd omms)))).
-Proof. exact alias_target_container_row. Qed.
-Print Assumptions C19_alias_target_container_row.
-
-(* ... but in a scope reached through an alias nothing is ever added (universal form of finding C19-F3;
-   all other rows - C19_function_row, C19_attribute_row, C19_untouched_modulo_known, C19_mismatch_row - hold there too). *)
-Theorem C19_below_alias_nothing_added :
-  forall sd sms od oms r,
-  merge_obj true (Obj sd sms) (Obj od oms) = Done r -> NoDup (names sms) -> NoDup (names (buf_of sd)) ->
-  names (members r) = names oms /\
-  forall n sm, lookup n oms = None -> lookup n sms = Some sm -> lookup n (members r) = None.
-Proof. exact below_alias_nothing_added. Qed.
-Print Assumptions C19_below_alias_nothing_added.
-
-(* "adds stub-only members" is false of the code below an alias: finding C19-F3
-   (m is merged - it now differs from the runtime m - while the stub-only method `only` is lost). *)
-Theorem C19_stub_only_below_alias_refuted :
-  exists s o r, merge_obj false s o = Done r /\ dict_ok s = true /\
-    known_gap_F1 s o = false /\ known_gap_F2 s o = false /\ known_gap_F3 s o = true /\
-    (exists x, at_path ["C"; "only"] s = Some x) /\ at_path ["C"; "only"] o = None /\
-    (exists y, at_path ["C"; "m"] r = Some y /\ y <> Obj (with_params (nd KFun) [("self", None)]) []) /\
-    at_path ["C"; "only"] r = None.
-Proof. exact stub_only_below_alias_refuted. Qed.
-Print Assumptions C19_stub_only_below_alias_refuted.
+  exists r, set_member_module (mkF true s) (mkF false (Obj od oms)) = Ok (mkF false r) /\ merge_obj s (Obj od oms) = Done r.
+Proof. exact set_member_order. Qed.
+Print Assumptions C19_set_member_order.
 
 (* the hypotheses above are satisfiable together, on a pair that exercises every row *)
 Theorem C19_hypotheses_satisfiable :
-  exists r, merge_obj false ex_s ex_o = Done r /\ NoDup (names (members ex_s)) /\ NoDup (names (root_buf ex_s)) /\
-    dict_ok ex_s = true /\ known_gap_F1 ex_s ex_o = false /\ known_gap_F2 ex_s ex_o = false /\ known_gap_F3 ex_s ex_o = false /\
+  exists r, merge_obj ex_s ex_o = Done r /\ NoDup (names (members ex_s)) /\ NoDup (names (root_buf ex_s)) /\
+    dict_ok ex_s = true /\
     at_path ["f"] r = Some (Obj (with_ret (with_params (nd KFun) [("x", Some "int"); ("y", Some "bytes")]) (Some "int")) []) /\
     at_path ["K"] r = Some (Obj (scope KCls []) []) /\
     at_path ["g"] r = Some (Al "ext.g" true) /\
@@ -244,3 +207,15 @@ Theorem C19_hypotheses_satisfiable :
     names (members r) = ["f"; "K"; "g"; "C"; "only"].
 Proof. exact hypotheses_satisfiable. Qed.
 Print Assumptions C19_hypotheses_satisfiable.
+
+(* the inputs that refuted the property before the repairs (F1: alias + overload-only stubs, F2: class + overload-only
+   stubs, F3: stub-only method of a re-exported class) now satisfy it *)
+Theorem C19_repaired_witnesses :
+  merge_obj ex_s_F1 ex_o = Done ex_o /\
+  set_member_module (mkF true ex_s_F1) (mkF false ex_o) = set_member_module (mkF false ex_o) (mkF true ex_s_F1) /\
+  merge_obj ex_s_F2 ex_o = Done ex_o /\
+  (exists r, merge_obj ex_s_F3 ex_o = Done r /\
+     at_path ["C"; "m"] r = Some (Obj (with_ret (with_params (nd KFun) [("self", None)]) (Some "int")) []) /\
+     at_path ["C"; "only"] r = Some (Obj (with_rt (with_ret (with_params (nd KFun) [("self", None)]) (Some "int")) false) [])).
+Proof. exact repaired_witnesses. Qed.
+Print Assumptions C19_repaired_witnesses.
